@@ -27,19 +27,43 @@ def run(ctx):
     ctx.floor("D1", "relay functions with two forward pumps", 2, len(relay_fns))
     for root, pumps in sorted(relay_fns.items()):
         fam = prog.family(root)
-        # D1a first-error-wins join
+        # D1a how the two direction futures are combined
+        rootb = prog.body(root)
         joiners = [b for b in fam if any(c.name == "MaybeDone::take_output" for (_, c, _) in b.calls())]
         tryj = [b for b in joiners if any(c.name == "Result::is_err" for (_, c, _) in b.calls())]
-        ctx.ob("D1", root, "first-error-wins-join", loc(prog.body(root).sp), len(tryj) >= 1 and len(tryj) == len(joiners),
-               "direction futures are joined with try_join! (first Err ends the flow)" if tryj and len(tryj) == len(joiners) else
-               "direction futures are joined without first-error-wins (join!): the flow stays half-open until both directions end")
-        # D1b every return of both futures is Err
+        spawns = [(b, blk, t) for b in fam for (blk, c, t) in b.calls() if c.target.endswith("task::spawn::spawn")]
+        spawned_pumps = []
+        for (sb, blk, t) in spawns:
+            for a in t["args"]:
+                ty = sb.local_ty(op_place(a)[0]) if op_place(a) else ""
+                for pmp in pumps:
+                    # the spawned future is (or contains) the pump's own async block
+                    # (an async block's type is printed as `{async block@file:line:col: ..}`: match the pump body's own span)
+                    sp_ = pmp.sp
+                    if pmp.defp in ty or (len(sp_) > 4 and f"async block@{sp_[0]}:{sp_[1]}:{sp_[4] + 1}" in ty) or (f"async block@{sp_[0]}:{sp_[1]}:" in ty and len(sp_) <= 4):
+                        spawned_pumps.append(pmp.defp)
+        aborts = [1 for b in fam for (_, c, _) in b.calls() if c.name in ("JoinHandle::abort", "AbortHandle::abort") or (c.method == "abort" and "Join" in c.self_s)]
+        selectors = [b for b in fam if sum(1 for (_, c, _) in b.calls() if c.name == "Future::poll") >= 2 and not any(c.name == "MaybeDone::take_output" for (_, c, _) in b.calls())]
+        mode = None
+        if spawned_pumps and not aborts:
+            ok, why = False, ("the direction pumps run as detached tasks (tokio::spawn) and their JoinHandles are only awaited/dropped, never aborted: when one "
+                              "direction ends the other keeps both sockets of the flow open until its own source ends")
+        elif tryj and len(tryj) == len(joiners):
+            mode = "try_join"
+            ok, why = True, "direction futures are joined with try_join! (first Err ends the flow)"
+        elif selectors and not joiners:
+            mode = "select"
+            ok, why = True, "direction futures are raced in one task (select!): the first to complete drops the other"
+        else:
+            ok, why = False, "direction futures are joined without first-completion-wins (join!): the flow stays half-open until both directions end"
+        ctx.ob("D1", root, "first-completion-ends-the-flow", loc(rootb.sp), ok, why)
+        # D1b with try_join!, every return of both futures must be an Err (a clean close must also end the other direction)
         for p in pumps:
             rv = returns_variant(p)
             kinds = sorted(set(rv.values()))
-            ok = bool(rv) and all(v in ("Err",) for v in rv.values())
+            ok = mode == "select" or (bool(rv) and all(v in ("Err",) for v in rv.values()))
             ctx.ob("D1", p.defp, "pump-always-returns-err", loc(p.sp), ok,
-                   "every completion of this direction is an Err value (ends the try_join)" if ok else
+                   ("a raced direction may complete with any value" if mode == "select" else "every completion of this direction is an Err value (ends the try_join)") if ok else
                    f"this direction can complete with {kinds}: a clean close of it no longer ends the other direction (half-open flow keeps sockets and task)")
             # D2
             fw = [(blk, c, t) for (blk, c, t) in p.calls() if c.name == "StreamExt::forward"]
